@@ -60,6 +60,10 @@ Pool ==
     With(Base, "matrix", "skiponly_t"), With(Base, "matrix", "skiponly_f"), With(Base, "matrix", "skiponly_s"),
     \* a pipeline variable whose value is EMPTY is a signed variable like any other: present-and-empty, absent, and another name
     [Base EXCEPT !.penv = ("B" :> "")], [Base EXCEPT !.penv = ("C" :> "")], [Base EXCEPT !.penv = ("B" :> "") @@ ("C" :> "")],
+    \* a number and the string of its digits are different values, however large
+    With(Base, "plugins", PL(FALSE, <<[src |-> "short", cfg |-> "big_int"]>>)), With(Base, "plugins", PL(FALSE, <<[src |-> "short", cfg |-> "big_str"]>>)),
+    \* step variables with credential-like names are ordinary variables
+    With(Base, "env", E(FALSE, ("API_TOKEN" :> "t1"))), With(Base, "env", E(FALSE, ("API_TOKEN" :> "t2"))), With(Base, "env", E(FALSE, ("DB_PASSWORD" :> "t1"))),
     \* an empty mapping, an empty list and null nested inside a plugin config are different configs
     With(Base, "plugins", PL(FALSE, <<[src |-> "short", cfg |-> "nest_map"]>>)), With(Base, "plugins", PL(FALSE, <<[src |-> "short", cfg |-> "nest_list"]>>)),
     With(Base, "plugins", PL(FALSE, <<[src |-> "short", cfg |-> "nest_null"]>>)), With(Base, "plugins", PL(FALSE, <<[src |-> "short", cfg |-> "nest_el_map"]>>)),
